@@ -97,6 +97,10 @@ def view_of(data, form):
     if form == "transposed":
         p = np.ascontiguousarray(data.T).copy()
         return p.T, p
+    if form == "readonly":
+        p = data.copy()
+        p.flags.writeable = False
+        return p, p
     raise ValueError(form)
 
 
@@ -171,8 +175,8 @@ NOARG_INPLACE = {
     "convert_to_equivalent(uncovered)": lambda q: q.convert_to_equivalent("K", "spectral"),
     "convert_to_base(equivalence-uncovered)": lambda q: q.convert_to_base("mks", equivalence="thermal"),
 }
-CONV_DTYPES = ["float64", "float32", "int64", "int32", "int8", "uint16", "complex128"]
-CONV_FORMS = [("base", (3,)), ("strided", (3,)), ("strided", (2, 2)), ("transposed", (2, 3)), ("base", ())]
+CONV_DTYPES = ["float64", "float32", "int64", "int32", "int8", "uint16", "complex128", "bool"]
+CONV_FORMS = [("base", (3,)), ("strided", (3,)), ("strided", (2, 2)), ("transposed", (2, 3)), ("base", ()), ("readonly", (3,))]
 SRC_UNITS = ["m", "km", "mile"]
 
 
@@ -185,6 +189,8 @@ def part_convert(ctx, shard):
     world.reset_world()
     for dtype in shard:
         for (form, shape), src_unit in itertools.product(CONV_FORMS, SRC_UNITS):
+            if dtype == "bool" and shape == ():
+                continue  # the quantity constructor refuses a bool scalar
             data = conv_data(shape, dtype)
 
             def fresh():
